@@ -214,4 +214,7 @@ def configs(tier):
         for extra in ((1,) if q else (1, 2, 3)):
             for ft, fr in (('bs', 'bs'), ('list', 'ndarray')):
                 out.append((f'counter-{mod}-{ft}-{fr}-tx-longer-by-{extra}', scen_counter, dict(mod=mod, n=3 if q else 4, tx_form=ft, rx_form=fr, extra=extra), {}))
+    # links simulated one after another in one session: the receiver filter of the later link is designed for its own sampling rate
+    from vf.props import C11 as _C11
+    out.append(('receiver-filter-follows-gv-across-links', _C11.scen_history, dict(kind='LPF'), {'validate': 1}))
     return out
